@@ -23,7 +23,9 @@ FILLERS = [' ', '\n', '\t\r\n  ', '/**/', ' /* x */ ', '/* { ; } " \' class */',
            '/** banner **/', '/***/', '//\n', '/* a */ /* b **/', '// c1\n  // c2 */\n', '/* // */', '// /*\n',
            '/* void serialize() const; serializable; #include <x.h> virtual template<T = {int}> typedef enum namespace n { } */',
            '// ff\x0c class Q1 { } ; vt\x0b fs\x1c gs\x1d rs\x1e nel\x85 class Q2 { } ; ls\u2028 ps\u2029 } ; {\n',
-           '/* \x0c \x0b \x85 \u2028 \u2029 ; } */']
+           '/* \x0c \x0b \x85 \u2028 \u2029 ; } */',
+           '// only a closing brace }\n', '/* only an opening brace { ( [ < */',
+           '/* note:\n# pragma once; see above */', '/*\n#if 0\n#endif */ // #define X\n']
 
 
 def seeds():
@@ -136,11 +138,12 @@ def reference(seedname):
         if isinstance(r['tree'], str):
             # the one-blank layout is rejected: take the one-token-per-line layout as the reference instead (the
             # rejection of the one-blank layout is then reported as a violation by check_case)
-            alt = layout(toks, {g: '\n' for g in range(1, len(toks))})
-            r2 = outputs(alt)
-            if not isinstance(r2['tree'], str):
-                r2['single_blank_layout_rejected'] = r.get('tree_msg')
-                r, text = r2, alt
+            for alt in (layout(toks, {g: '\n' for g in range(1, len(toks))}), D.render(mod), D.render_tight(mod)):
+                r2 = outputs(alt)
+                if not isinstance(r2['tree'], str):
+                    r2['single_blank_layout_rejected'] = r.get('tree_msg')
+                    r, text = r2, alt
+                    break
         r.update(gen_outputs(text))
         _ref[seedname] = (toks, r)
     return _ref[seedname]
@@ -172,8 +175,8 @@ def check_case(case):
             got = outputs(text)
     if ref.get('single_blank_layout_rejected'):
         viol.append({'sig': 'C12|rejected|whitespace|one-blank-between-all-tokens',
-                     'msg': 'the layout with exactly one blank between all tokens is rejected (%s) while the layout with one token per '
-                            'line is accepted\n--- input ---\n%s' % (ref['single_blank_layout_rejected'], layout(toks, {})[:600])})
+                     'msg': 'the layout with exactly one blank between all tokens is rejected (%s) while another layout of the same tokens '
+                            '(one token per line / the conventional one) is accepted\n--- input ---\n%s' % (ref['single_blank_layout_rejected'], layout(toks, {})[:600])})
     if isinstance(ref['tree'], str):
         raise RuntimeError('reference layout of seed %s does not parse: %s' % (case['seed'], ref.get('tree_msg')))
     if got['tree'] != ref['tree']:
@@ -253,7 +256,7 @@ def run(ctx):
     cases = []
     S = seeds()
     nf = len(FILLERS)
-    single = list(range(nf)) if ctx.thorough else [0, 1, 3, 5, 6, 7, 8, 11, 12, 16]
+    single = list(range(nf)) if ctx.thorough else [0, 1, 3, 5, 6, 7, 8, 11, 12, 16, 18, 20]
     for name, mod in list(S.items()) + list(SMALL.items()):
         n = len(atomic_tokens(mod))
         k = 0
@@ -277,7 +280,7 @@ def run(ctx):
     return {
         'evaluations': len(cases) + len(bcases),
         'distinct_nontrivial': len({(c['seed'], tuple(sorted(c['fill'].items()))) for c in cases}),
-        'rule': '%d seed modules (%s) x every token gap x %d fillers (10 of them in the quick tier), all-gaps and alternating variants%s, and per seed the pair `// decl` / `//<newline>decl` parsed in both orders within one process; distinct by '
+        'rule': '%d seed modules (%s) x every token gap x %d fillers (12 of them in the quick tier), all-gaps and alternating variants%s, and per seed the pair `// decl` / `//<newline>decl` parsed in both orders within one process; distinct by '
                 '(seed, gap->filler map); generator outputs compared on %d of them'
                 % (len(S) + len(SMALL), ', '.join(list(S) + list(SMALL)), nf,
                    '; all gap pairs x 25 filler pairs on the two small seeds' if ctx.thorough else '',
